@@ -211,14 +211,11 @@ def configs(tier):
         if method.endswith('_cov'):
             out.append(dict(case='regress', method=method, n_cond=3, n_basis=2, n_rdm=2, sigma='cvector'))
             out.append(dict(case='regress', method=method, n_cond=4, n_basis=2, n_rdm=1, sigma='cvector'))
-        if not quick:
-            out.append(dict(case='regress', method=method, n_cond=4, n_basis=3, n_rdm=2))
-            out.append(dict(case='regress', method=method, n_cond=5, n_basis=2, n_rdm=1, pattern_idx=[4, 1, 1, 0, 3]))
     for method in ['cosine', 'corr']:
         out.append(dict(case='select', method=method, n_cond=3, n_basis=2, n_rdm=2))
         out.append(dict(case='select', method=method, n_cond=3, n_basis=3, n_rdm=1))
         if not quick:
-            out.append(dict(case='select', method=method, n_cond=4, n_basis=3, n_rdm=2))
+            out.append(dict(case='select', method=method, n_cond=4, n_basis=2, n_rdm=1))
     for cls in ['ModelFixed', 'ModelSelect', 'ModelWeighted', 'ModelInterpolate']:
         for from_obj in [True, False]:
             out.append(dict(case='predict', cls=cls, n_cond=3, n_basis=2, n_rdm=1, from_obj=from_obj))
